@@ -81,6 +81,35 @@ theorem STree.presentL_mem {d : Dest} : {ks : List STree} → STree.presentL d k
     · exact h.1
     · exact STree.presentL_mem h.2 k' hm
 
+/-! #### copy under write faults -/
+
+/-- a phase that reports no error although `finalize()` is checked stored every needed blob -/
+theorem copyPhase_checked_ok {fail last : Nat → Bool} {need : List Nat}
+    (h : (copyPhase true fail last need).2 = false) : (copyPhase true fail last need).1 = need := by
+  simp only [copyPhase, Bool.true_or, Bool.and_true] at h ⊢
+  rw [List.filter_eq_self]
+  intro b hb
+  have := List.any_eq_false.1 h b hb
+  simpa using this
+
+/-- `copy` as written returns Ok only if it did exactly what the fault-free run does -/
+theorem copyRunFaulty_checked_some {f : CopyFaults} {dst : Dest} {snaps : List STree} {d : Dest}
+    (h : copyRunFaulty true f dst snaps = some d) : d = copyRun dst snaps := by
+  unfold copyRunFaulty at h
+  simp only [] at h
+  split at h
+  · cases h
+  · rename_i h1
+    split at h
+    · cases h
+    · rename_i h2
+      split at h
+      · cases h
+      · have e1 := copyPhase_checked_ok (Bool.eq_false_iff.2 h1)
+        have e2 := copyPhase_checked_ok (Bool.eq_false_iff.2 h2)
+        rw [e1, e2] at h
+        exact (Option.some.inj h).symm
+
 /-! ### repair -/
 
 mutual
